@@ -29,8 +29,12 @@ def mutate(rng, s):
         # activate, exactly once), or at some later point
         s.ops.insert(1 if rng.random() < 0.6 else rng.randint(2, len(s.ops)), ("reconstruct", "copy"))
     if not s.is_async() and s.cbs:
-        rng.choice([c for c in s.cbs if not c.alias_of and c.id not in {x.alias_of for x in s.cbs}] or s.cbs).coro = True
-        c = [c for c in s.cbs if c.coro][0]
+        real = [c for c in s.cbs if c.style not in ("attr", "evref")]
+        if not real:
+            s.rtc = True
+            return
+        rng.choice([c for c in real if not c.alias_of and c.id not in {x.alias_of for x in s.cbs}] or real).coro = True
+        c = [c for c in real if c.coro][0]
         c.yields = rng.randint(0, 3)
         # (a callback that yields must not share a group with one that raises: `gather` would leave it running when
         # the group fails, and which siblings of a failing callback ran is unconstrained — DESIGN 3.2)
